@@ -5,6 +5,7 @@ import Q1t.Proofs.OpenQasmConstC
 import Q1t.Proofs.OpenQasmConstD
 import Q1t.Proofs.OpenQasmParam
 import Q1t.Proofs.OpenQasmComplex
+import Q1t.Proofs.OpenQasmComplex2
 import Q1t.Proofs.OpenQasmWitness
 /-!
 # C11 — OpenQASM export preserves circuit semantics or fails
@@ -25,18 +26,17 @@ of a program is the fold of its statements (`semantics_is_fold`); per gate, the 
 (all constant gates exactly; RX RY RZ U1 U2 U3 for all angles).
 
 NOT PROVED (checked on every run by (B) on generated circuits only) — `unproved`:
-  * `export_wellformed_partial`, `export_equiv_partial` (the lifting of the per-gate facts to whole circuits needs
-    the composition laws of `Spec.embed` under relabelling of qubits, which are not developed);
-  * the template identities, for all angles, of CRX, CRY, CRZ, CU1, CCRX, CCRY, CCRZ, and CT / CTdg
-    (`cu1(±pi/4)`: the body of `cu1` passes through `u1(±pi/8)`, outside `ℚ(ζ₈)`); CU3 has a negative witness.
+  * `export_equiv_partial` (the lifting of the per-gate facts to whole circuits needs the composition laws of
+    `Spec.embed` under relabelling of qubits for the exported statement sequences, which are not developed).
+Every library gate with a translation into `qelib1` has its per-gate obligation proved: the constants exactly
+(`constant_gates_exact`; CT, CTdg in `parametrised_controlled_gates`), all parametrised gates for all angles
+(`parametrised_one_qubit_gates`, `parametrised_controlled_gates`).
 -/
 namespace Q1t.Props.C11
 open Q1t Q1t.OpenQasm Q1t.Spec.OQ2
 
 /-- names of what is not proved (see the header) -/
-def unproved : List String :=
-  ["export_wellformed_partial", "export_equiv_partial", "template:CRX", "template:CRY", "template:CRZ",
-   "template:CU1", "template:CU3", "template:CT", "template:CTdg", "template:CCRX", "template:CCRY", "template:CCRZ"]
+def unproved : List String := ["export_equiv_partial"]
 
 variable {P : Type}
 
@@ -115,7 +115,7 @@ theorem structural_literals_as_modelled :
 
 /-! ## Per-gate meaning -/
 
-/-- Every constant library gate except CT, CTdg (see `unproved`) and CV, CVdg: the statements it is exported as
+/-- Every constant library gate except CT, CTdg (proved in `parametrised_controlled_gates`) and CV, CVdg: the statements it is exported as
 denote, through the bodies of `qelib1.inc`, the documented unitary up to a global phase — exact arithmetic in
 `ℚ(ζ₈)`, the list IS the whole quantifier. -/
 theorem constant_gates_exact :
@@ -144,12 +144,34 @@ theorem parametrised_one_qubit_gates (h : LawfulAmp α P) (hh : Proofs.Unitaries
     (∀ p l : P, LibGateOK α P libTable "U2" [p, l]) ∧ (∀ t p l : P, LibGateOK α P libTable "U3" [t, p, l]) :=
   ⟨rx_ok h ha, ry_ok h ha, rz_ok h hh ha, u1_ok h ha, u2_ok h ha, u3_ok h ha⟩
 
+/-- The controlled parametrised gates for ALL parameter values: CRZ, CU1, CU3 (through the bodies of `crz`, `cu1`,
+`cu3` in `qelib1.inc`), CRX, CRY, CCRX, CCRY, CCRZ (through the exporter's decomposition templates), and CT, CTdg
+(`cu1(±pi/4)`): the exported statements denote exactly the documented controlled unitary (phase 1). -/
+theorem parametrised_controlled_gates (h : LawfulAmp α P) (hh : Proofs.Unitaries.LawfulHalf α P)
+    (ha : LawfulAngle α P) (ha2 : LawfulAngle2 α P) (ha3 : LawfulAngle3 α P) :
+    (∀ θ : P, LibGateOK α P libTable "CRX" [θ]) ∧ (∀ θ : P, LibGateOK α P libTable "CRY" [θ]) ∧
+    (∀ l : P, LibGateOK α P libTable "CRZ" [l]) ∧ (∀ l : P, LibGateOK α P libTable "CU1" [l]) ∧
+    (∀ t p l : P, LibGateOK α P libTable "CU3" [t, p, l]) ∧
+    (∀ θ : P, LibGateOK α P libTable "CCRX" [θ]) ∧ (∀ θ : P, LibGateOK α P libTable "CCRY" [θ]) ∧
+    (∀ l : P, LibGateOK α P libTable "CCRZ" [l]) ∧
+    LibGateOK α P libTable "CT" [] ∧ LibGateOK α P libTable "CTdg" [] :=
+  ⟨crx_ok h hh ha ha2, cry_ok h hh ha ha2, crz_ok h ha, cu1_ok h hh ha, cu3_ok h hh ha ha2,
+   ccrx_ok h hh ha ha2 ha3, ccry_ok h hh ha ha2 ha3, ccrz_ok h hh ha ha2,
+   ct_ok h hh ha ha2, ctdg_ok h hh ha ha2⟩
+
 end param
 
 /-- non-vacuity of the hypotheses: complex amplitudes, real angles -/
 example : (∀ θ : ℝ, LibGateOK ℂ ℝ libTable "RX" [θ]) ∧ (∀ l : ℝ, LibGateOK ℂ ℝ libTable "RZ" [l]) :=
   ⟨(parametrised_one_qubit_gates AmpComplex.lawful AmpComplex.lawfulHalf lawfulAngleComplex).1,
    (parametrised_one_qubit_gates AmpComplex.lawful AmpComplex.lawfulHalf lawfulAngleComplex).2.2.1⟩
+
+/-- … and for the controlled gates: e.g. CCRX and CU3 over ℂ at all real angles -/
+example : (∀ θ : ℝ, LibGateOK ℂ ℝ libTable "CCRX" [θ]) ∧ (∀ t p l : ℝ, LibGateOK ℂ ℝ libTable "CU3" [t, p, l]) :=
+  ⟨(parametrised_controlled_gates AmpComplex.lawful AmpComplex.lawfulHalf lawfulAngleComplex lawfulAngle2Complex
+      lawfulAngle3Complex).2.2.2.2.2.1,
+   (parametrised_controlled_gates AmpComplex.lawful AmpComplex.lawfulHalf lawfulAngleComplex lawfulAngle2Complex
+      lawfulAngle3Complex).2.2.2.2.1⟩
 
 /-! ## Negative witnesses (the pinned code violates the property) and agreement (non-vacuity) -/
 
